@@ -60,7 +60,7 @@ class C11(flow.Spec):
     partial = ['C11_lex_roundtrip_* are FULL (PkgLength in all four widths, numbers, strings, every name form, every opcode of the generated maps)',
                'C11_full_parse_encode (the full statement, Props/C11.v) is NOT proved and is in fact FALSE for the current parser: '
                'C11_parse_encode_refuted exhibits one well-formed program per known finding on which the faithful model rejects the table or '
-               'builds another namespace. C11_parse_encode_partial / _F1 ... _F6 / _T2 (Props/C11_frag.v) PROVE the statement for fragments F0 (one table, any number of '
+               'builds another namespace. C11_parse_encode_partial / _F1 ... _F7 / _T2 (Props/C11_frag.v) PROVE the statement for fragments F0 (one table, any number of '
                'Name(<single NameSeg>, <integer constant>) declarations) F1/F2 (those, Device blocks and Methods with declaration-only bodies, nested to any depth) and F3 (in addition top-level Scope directives over the predefined scopes); outside that fragment and the lexical level the statement '
                'is TESTED, not proved - by the correspondence (Python encoder = Coq encode, Python ns = Coq ns, wf_program accepts every generated '
                'program, model parser = real parser incl. the Coq namespace view = the harness view) and by the monitor on the real parser',
